@@ -1433,7 +1433,13 @@ func protoSchedule(c *Ctx, s *protoSrv, malformed bool) {
 				}
 			}
 		case x < 40: // local edit (offline stretch = several of these in a row)
-			edit(sc, d, []string{"ops", "ops", "ops", "pres", "both"}[r.Intn(5)])
+			kinds := []string{"ops", "ops", "ops", "pres", "both"}
+			if malformed && r.Intn(6) == 0 {
+				// a change with neither operations nor presence: only a foreign client sends one; it still
+				// occupies a clientSeq and a serverSeq (memory DB keeps the row)
+				kinds = []string{"none"}
+			}
+			edit(sc, d, kinds[r.Intn(len(kinds))])
 		case x < 80: // sync
 			extra := ""
 			po := r.Intn(7) == 0
